@@ -9,7 +9,7 @@ def check(ctx):
         "to the dequeue end, and the new command is pushed to the ring only when nothing is parked (send, force_send); "
         "R3 the removal keyed by DropCollect.collect_id is guarded by Config.cancelable; R4 phase order "
         "Start<Drop<Commit; R5 the per-item fan-out loop has no exit other than exhaustion; R6 DropCollect goes "
-        "through force_send_command and force_send never drops a value. R9 only a StartCollect grows active_collectors (a late span cannot bring a cancelled trace back); R10 Config setters keep the other fields (cancelable survives report_interval()).")
+        "through force_send_command and force_send never drops a value. R8 the collect id of a sampled root is the result of one fetch_add on the process-wide counter itself (never the reserved usize::MAX, never computed per thread); R9 only a StartCollect grows active_collectors (a late span cannot bring a cancelled trace back); R10 Config setters keep the other fields (cancelable survives report_interval()).")
     ctx.not_decided = ("suppression of children across arbitrary cross-queue interleavings; that nothing is delivered "
                        "'ever' is a history property.")
     facts = ctx.facts("E")
@@ -30,6 +30,7 @@ def check(ctx):
     spsc.rule_parked_visible_to_collector(ctx, facts, "R7")
     from .. import provrules
     provrules.rule_not_sampled_sentinel(ctx, facts, "R8")
+    provrules.rule_collect_ids(ctx, facts, "R8")     # two live traces never share a collect id: a cancel hits the trace it names only
     # a cancelled trace stays cancelled: nothing but a StartCollect creates an active collector (a late span must not bring one
     # back), and the cancelable switch survives the other Config setters
     if c.need("R9"):
